@@ -17,19 +17,19 @@ from . import targets as T
 ROOT = os.path.dirname(os.path.dirname(os.path.dirname(os.path.abspath(__file__))))
 
 
-def generate(groups=None, only=None, out=None, quiet=False):
+def generate(groups=None, only=None, out=None, quiet=False, prune=False):
     out = out or os.path.join(ROOT, 'lean', 'EPV', 'Gen')
     os.makedirs(out, exist_ok=True)
     import fcntl
     with open(os.path.join(out, '.gen.lock'), 'w') as lk:
         fcntl.flock(lk, fcntl.LOCK_EX)      # generators may run concurrently (manifest is read-modify-write)
         try:
-            return _generate(groups, only, out, quiet)
+            return _generate(groups, only, out, quiet, prune)
         finally:
             fcntl.flock(lk, fcntl.LOCK_UN)
 
 
-def _generate(groups, only, out, quiet):
+def _generate(groups, only, out, quiet, prune=False):
     mpath = os.path.join(out, 'gen_manifest.json')
     try:
         manifest = json.load(open(mpath))
@@ -79,7 +79,9 @@ def _generate(groups, only, out, quiet):
     # registry of Float twins
     current = set(t['name'] for t in T.TARGETS)
     for n in list(manifest):
-        if n not in current:
+        # pruning only on an explicit full run (`--prune`, used by setup.sh): a long-lived process may
+        # hold a stale target list while other work adds targets
+        if prune and n not in current:
             # a target that no longer exists: drop its record and its files
             del manifest[n]
             for suffix in ('', 'D', 'F'):
@@ -127,8 +129,9 @@ if __name__ == '__main__':
     ap.add_argument('--groups')
     ap.add_argument('--only')
     ap.add_argument('--out')
+    ap.add_argument('--prune', action='store_true')
     a = ap.parse_args()
-    man, ch = generate(a.groups.split(',') if a.groups else None, a.only.split(',') if a.only else None, a.out)
+    man, ch = generate(a.groups.split(',') if a.groups else None, a.only.split(',') if a.only else None, a.out, prune=a.prune)
     print('changed:', ch)
     bad = [n for n, d in man.items() if d.get('status') != 'ok']
     if bad:
